@@ -225,6 +225,10 @@ def pair_exec(ctx, rep):
         inc_labels = None
         for p in ps:
             if p.status == "raise":
+                # a constructor that fails (user code it runs -- a count callable, say -- raised) leaves no executor
+                # behind, so it must not have counted one: the gauge would never come back down
+                early = [q.metric_of(e) for e in p.calls() if q.metric_of(e) and q.metric_of(e)[0] in ("EXEC_INPROGRESS", "EXEC_TOTAL") and q.metric_of(e)[1] == "inc"]
+                rep.ob("R-PAIR-E", "%s.__init__: nothing is counted before the last point where the constructor can fail" % ci.name, not early, "%s is incremented on a constructor path that then raises (%s): no executor exists afterwards and nothing can ever decrement the gauge" % (", ".join(sorted(set(m[0] for m in early))), fmt(p.value)[:80]), where_of(init), trace_of(p))
                 continue
             incs = [q.metric_of(e) for e in p.calls() if q.metric_of(e) and q.metric_of(e)[0] == "EXEC_INPROGRESS"]
             tots = [q.metric_of(e) for e in p.calls() if q.metric_of(e) and q.metric_of(e)[0] == "EXEC_TOTAL"]
